@@ -2096,31 +2096,64 @@ def r5_listing_equals_read(ctx):
     # a positioned read (rdop2mats): seek to the start the directory recorded, re-read name and trailer, decode with the trailer of that block
     rm = _w2(ctx, "rdop2mats", tag="nofile", follow=_no_file_helpers(ctx, OP2, "OP2", keep=("self.set_position", "self.rdop2nt", "self.rdop2matrix")))
     if rm is not None:
-        calls = [e for e in rm.events if e[0] == "call" and e[1] in ("self.set_position", "self.rdop2nt", "self.rdop2matrix")]
-        reads = [i for i, e in enumerate(calls) if e[1] == "self.rdop2matrix"]
-        ok = bound = bool(reads)
-        entries = []
+        # the steps of a positioned read, in evaluation order and by what they do: ('pos', offset, ...) an absolute positioning of the file (the
+        # public `set_position(offset)`, or a seek of the file itself wherever it is written: in the function, in a helper, inlined),
+        # ('nt', value of rdop2nt()), ('mat', arguments of rdop2matrix by its signature, guard, node)
+        sp = _func(ctx, OP2, "OP2.set_position") if _has_func(ctx, OP2, "OP2.set_position") else None
+        sp_params = [a.arg for a in sp.args.posonlyargs + sp.args.args if a.arg not in ("self", "cls")] if sp is not None else ["pos"]
+        mt_params = [a.arg for a in mt.fn.args.posonlyargs + mt.fn.args.args if a.arg not in ("self", "cls")] if mt is not None else ["trailer"]
+        steps = []
+        for e in rm.events:
+            if e[0] == "abs":
+                steps.append(("pos", e[1], e[2], e[3]))
+            elif e[0] in ("seek", "read", "line", "lines", "fromfile"):
+                steps.append(("other", e[0], None, e[-1] if e[0] != "fromfile" else e[3]))      # (the file moved by other means in between)
+            elif e[0] == "call" and e[1] == "self.set_position":
+                a_ = place(e[2], e[3], sp_params)
+                steps.append(("pos", a_.get(sp_params[0]) if sp_params and len(a_) == 1 else None, e[4], e[5]))
+            elif e[0] == "call" and e[1] == "self.rdop2nt":
+                steps.append(("nt", e[8], e[4], e[5]))
+            elif e[0] == "call" and e[1] == "self.rdop2matrix":
+                steps.append(("mat", place(e[2], e[3], mt_params), e[4], e[5]))
+            elif e[0] == "call" and e[1] in rm.table and (e[1] or "").startswith("self."):
+                steps.append(("other", e[1], e[4], e[5]))         # (a method of the class that was not entered: it may read or position the file)
+        reads = [i for i, st_ in enumerate(steps) if st_[0] == "mat"]
+        # verdict per read: True, False (with the reason: a rigid difference), None (the way the read is set up is not understood: exit 2)
+        verdict, why, entries = (True if reads else None), None, []
         for i in reads:
-            ok = ok and i >= 2 and calls[i - 1][1] == "self.rdop2nt" and calls[i - 2][1] == "self.set_position" and len(calls[i][2]) == 1 \
-                and len(calls[i - 2][2]) >= 1
-            if not ok:
+            kinds = [st_[0] for st_ in steps[max(0, i - 2):i]]
+            if kinds[-1:] == ["pos"]:
+                verdict, why = False, {"the matrix decoder is entered right after positioning to the start of the data block": "the name and trailer records "
+                                       "that lie there (the directory scan records the offset before it reads them) are decoded as the first column"}
                 break
-            pos, tr = calls[i - 2][2][0], calls[i][2][0]
+            if kinds != ["pos", "nt"] or len(steps[i][1]) != 1 or mt_params[0] not in steps[i][1]:
+                verdict = None
+                break
+            pos, tr = steps[i - 2][1], steps[i][1][mt_params[0]]
             pp = C.fn_parts(pos) if _rat(pos) else None
-            ok = pp is not None and pp[0] == "attr:start" and _rat(pp[1][0])
-            if not ok and (pp is None or not pp[0].startswith("attr:")):
-                bound = False          # (positioned by other means than a field of the directory entry: by name, by a stored offset)
-            if ok:
-                sn = pp[1][0]
-                entries.append((sn, calls[i][4], calls[i][5]))
-                # the trailer the matrix is decoded with: the one the directory stored, or the one just re-read by rdop2nt (the same record)
-                ok = C.same(tr, F.fn("attr:trailer", sn)) or (_rat(calls[i - 1][8]) and C.same(tr, F.fn("idx", calls[i - 1][8], F.const(1))))
-        if not ok and not bound:
-            ctx.error("rdop2mats: how a matrix is positioned before it is read could not be identified", rm.fn, [e[1] for e in calls])
+            if pp is None or not pp[0].startswith("attr:") or len(pp[1]) != 1 or not _rat(pp[1][0]):
+                verdict = None         # (positioned by other means than a field of the directory entry: by name, by a stored offset)
+                break
+            sn = pp[1][0]
+            if pp[0] != "attr:start":
+                verdict, why = False, {"positioned to the field": pp[0][5:], "of": repr(sn)[:200]}
+                break
+            entries.append((sn, steps[i][2], steps[i][3]))
+            # the trailer the matrix is decoded with: the one the directory stored, or the one just re-read by rdop2nt (the same record)
+            if C.same(tr, F.fn("attr:trailer", sn)) or (_rat(steps[i - 1][1]) and C.same(tr, F.fn("idx", steps[i - 1][1], F.const(1)))):
+                continue
+            tp = C.fn_parts(tr) if _rat(tr) else None
+            rigid = tp is not None and len(tp[1]) >= 1 and _rat(tp[1][0]) and (
+                (tp[0].startswith("attr:") and tp[0] != "attr:trailer" and tp[1][0].equals(sn)) or
+                (tp[0] == "idx" and len(tp[1]) == 2 and _rat(steps[i - 1][1]) and tp[1][0].equals(steps[i - 1][1]) and _rat(tp[1][1]) and tp[1][1].is_const()))
+            verdict, why = (False, {"decoded with": repr(tr)[:200], "entry": repr(sn)[:200]}) if rigid else (None, None)
+            break
+        if verdict is None:
+            ctx.error("rdop2mats: how a matrix is positioned before it is read could not be identified", rm.fn, [(st_[0] if st_[0] != "other" else st_[1]) for st_ in steps])
         else:
-            ctx.check(ok, "rdop2mats: a positioned read seeks to the start recorded by the directory scan, re-reads name and trailer, and decodes with the "
-                          "trailer of that data block", rm.fn)
-            if ok and d is not None:
+            ctx.check(verdict, "rdop2mats: a positioned read seeks to the start recorded by the directory scan, re-reads name and trailer, and decodes with the "
+                               "trailer of that data block", rm.fn, why)
+            if verdict and d is not None:
                 _entries_are_matrices(ctx, d, rm, entries)
 
 
@@ -2314,7 +2347,51 @@ def _entry_kind(rm, facts, v, tests, world, depth=0):
         return _combine([got] + [rec(a) for a in rest[:1]])
     if name in ("call:list", "call:tuple", "call:sorted", "call:reversed", "call:iter") and args:
         return rec(args[0])
+    if name.split(".")[-1] in ("call:filter", "filter", "filterfalse") and name.startswith("call:") and len(args) == 2:
+        # filter(pred, X) is a selection from X: of a collection of matrices it is one; of a mixed collection it stays mixed when the predicate
+        # looks at nothing but the name of an entry (a selection by name cannot tell a table from a matrix of that name); otherwise not known
+        k = rec(args[1])
+        if k in ("matrix", "empty"):
+            return k
+        f = rm.local_funcs.get(C.sym_name(args[0]) or "") if _rat(args[0]) else None
+        if k is not None and f is not None and facts["name"] and _looks_at_only(f, facts["name"]):
+            return k
+        if f is not None and name.endswith("filter"):
+            # the predicate evaluated on a generic entry: a selection whose test settles the kind of the entry is a collection of matrices
+            test, ent = _predicate_value(rm, f)
+            if test is not None and established(((test, True),), ent):
+                return "matrix"
+        return None
     return None
+
+
+def _predicate_value(rm, f):
+    """(value of the one-parameter function `f` defined inside the walked function on a generic argument, that argument) or (None, None)"""
+    a = f.args
+    params = [x.arg for x in a.posonlyargs + a.args]
+    if len(params) != 1 or a.vararg or a.kwarg or a.kwonlyargs or a.defaults:
+        return None, None
+    try:
+        wk = C.Walker(rm.ctx, rm.rel, rm.cls, f, files=(), follow=False)
+        wk.stack = [rm.fn, f]              # (free names of the predicate are locals of the function around it)
+        wk.run_function()
+    except Exception:   # noqa  (a predicate the evaluator cannot lower: not known)
+        return None, None
+    if len(wk.returns) != 1 or not _rat(wk.returns[0][0]) or wk.returns[0][1]:
+        return None, None
+    return wk.returns[0][0], F.sym(params[0])
+
+
+def _looks_at_only(f, field):
+    """the one-parameter function `f` uses its parameter only to read `.field` of it"""
+    a = f.args
+    params = [x.arg for x in a.posonlyargs + a.args]
+    if len(params) != 1 or a.vararg or a.kwarg or a.kwonlyargs:
+        return False
+    body = f.body if isinstance(f.body, list) else [f.body]
+    reads = {id(n.value) for st in body for n in ast.walk(st) if isinstance(n, ast.Attribute) and n.attr == field and isinstance(n.value, ast.Name)}
+    uses = [n for st in body for n in ast.walk(st) if isinstance(n, ast.Name) and n.id == params[0]]
+    return bool(uses) and all(id(n) in reads for n in uses)
 
 
 def _entries_are_matrices(ctx, d, rm, entries):
